@@ -218,7 +218,6 @@ def oracle(case, o):
             bad.append((fsig('index:unusable', ft), 'record %s: entry %s does not address its bases' % (bytes(n), g), e))
             wrong.add(ri)
     # TSV
-    names_plain = all(all(c not in (34, TAB, CR, LF) for c in r['name']) for r in f['recs'])
     tsv_exp = []
     for r in sorted(idx['recs'], key=lambda r: r['start']):
         tsv_exp += r['name'] + [TAB] + [ord(c) for c in '%d\t%d\t%d\t%d\n' % (r['len'], r['start'], r['bases'], r['bytes'])]
@@ -226,7 +225,7 @@ def oracle(case, o):
         bad.append(('tsv:write', 'WriteTo output is not the five-column text sorted by offset', None))
     rt = o.get('rt') or {}
     if rt.get('err') != 0 or rt.get('recs') != sorted(idx['recs'], key=lambda r: (r['start'], r['name'])):
-        bad.append((fsig('tsv:roundtrip', [] if names_plain else ['quote-in-name']),
+        bad.append((fsig('tsv:roundtrip', ['quote-in-name'] if any(34 in r['name'] for r in f['recs']) else []),
                     'ReadFrom(WriteTo(idx)) differs from idx: ' + str(rt.get('msg', rt.get('recs'))), None))
     # reads
     byname = {tuple(r['name']): (ri, seq_of(r)) for ri, r in enumerate(f['recs'])}
@@ -394,7 +393,7 @@ def gen_tsv(rng):
     names = []
     for _ in range(rng.choice([0, 1, 2, 3, 5])):
         k = rng.random()
-        name = [rng.choice(NAMECH) for _ in range(rng.choice([0, 1, 2, 4]))]
+        name = [rng.choice(NAMECH + [34, 34, 32, 13]) if rng.random() < 0.3 else rng.choice(NAMECH) for _ in range(rng.choice([0, 1, 2, 4]))]
         if k < 0.15 and names:
             name = rng.choice(names)
         names.append(name)
@@ -438,8 +437,8 @@ def gen_tsv(rng):
         out += line + ([CR, LF] if r < 0.2 else [LF])
         if rng.random() < 0.15:
             out += rng.choice([[LF], [CR, LF]])
-    if out and rng.random() < 0.2:
-        out = out[:-1] if out[-1] == LF and (len(out) < 2 or out[-2] != CR) else out
+    if out and rng.random() < 0.25 and out[-1] == LF:
+        out = out[:-1]          # last line without LF (possibly ending in CR)
     return out
 
 
@@ -486,14 +485,14 @@ def coq_select(rng, case, o, k):
 def coq_case(case, o, sel):
     f = case.get('struct')
     idx = o['idx']
-    plain = all(34 not in r['name'] for r in idx['recs'])
+    plain = True
     if idx['err'] == 0:
         tsv = '(%s, %s)' % (cb(plain), clist(o.get('tsv', [])))
         rt = cidx(o['rt']) if plain else '(0, [])'
         qs = '[%s]' % '; '.join(cquery(case['queries'][i], o['queries'][i]) for i in sel)
     else:
         tsv, rt, qs = '(false, [])', '(0, [])', '[]'
-    st = cstruct(f) if f is not None and in_model_scope(f) else 'None'
+    st = cstruct(f) if f is not None else 'None'
     return 'mkCase %s %s %s %s %s %s' % (clist(case['file']), cidx(idx), tsv, rt, qs, st)
 
 
@@ -521,6 +520,44 @@ def gen_cases(rng, tier):
         qs = [dict(name=q['name'], whole=q['whole'], s=q['s'], e=q['e'], sizes=q['sizes']) for q in gen_queries(rng, f, tier)[:8]]
         cases.append(dict(kind='mut', family='mutated', struct=None, file=data, queries=qs))
     return cases
+
+
+MAXTOK = 64 * 1024      # bufio.MaxScanTokenSize: "maximum size used to buffer a token"
+
+
+def gen_long():
+    """Files with one line around the bufio.Scanner limit of NewIndex: (pre, n, post, struct)."""
+    A = lambda t: [ord(c) for c in t]
+    out = []
+    for crlf, n, tail in [(False, MAXTOK - 1, 'rec'), (False, MAXTOK, 'rec'), (True, MAXTOK - 2, 'rec'), (True, MAXTOK - 1, 'rec'),
+                          (False, MAXTOK - 1, 'eof'), (False, MAXTOK, 'eof'), (False, MAXTOK - 1, 'nl'), (False, MAXTOK + 5, 'second-line')]:
+        t = term(crlf)
+        recs = [dict(name=A('L'), desc=A(' long'), full=[], last=[65] * n, crlf=crlf, blanks=[])]
+        if tail == 'second-line':
+            recs[0]['full'] = [[65] * n]
+            recs[0]['last'] = [65, 65]
+        if tail in ('rec', 'second-line'):
+            recs.append(dict(name=A('b'), desc=[], full=[A('ACG')], last=A('T'), crlf=crlf, blanks=[]))
+        f = dict(lead=[], recs=recs, final=tail != 'eof')
+        data = render(f)
+        i = data.index(65, 8)                       # first base of the long line
+        assert data[i:i + n] == [65] * n and (i + n == len(data) or data[i + n] != 65)
+        out.append(dict(pre=data[:i], n=n, post=data[i + n:], struct=f, file=data, tail=tail))
+    return out
+
+
+def lines_fit(data):
+    """Every line with its terminator at most MAXTOK bytes, an unterminated last line at most MAXTOK-1."""
+    i = 0
+    while i < len(data):
+        try:
+            j = data.index(LF, i) + 1
+            if j - i > MAXTOK:
+                return False
+        except ValueError:
+            return len(data) - i < MAXTOK
+        i = j
+    return True
 
 
 def load_corpus():
@@ -591,13 +628,39 @@ def run(res, rng, tier):
         sel = coq_select(rng, c, o, 5 if tier == 'quick' else 12)
         ncoq += 1 + len(sel)
         terms.append((c, o, coq_case(c, o, sel)))
-    bad, err = core.coq_mismatches(HEADER, 'c19case', 'c19_agree', [t[2] for t in terms], 'c19', shard=max(12, (len(terms) + nsh - 1) // nsh))
-    if err:
-        res.corr_bad.append(dict(error=err))
-    for i in bad:
-        c, o, t = terms[i]
-        res.corr_bad.append(dict(case=dict(file=c['file'], text=bytes(c['file']).decode('latin1'), queries=c['queries']), obs=strip(o),
-                                 note='Coq model of NewIndex/WriteTo/ReadFrom/Seq.Read (or the rendered structure) disagrees with the implementation'))
+    from concurrent.futures import ThreadPoolExecutor
+    pool = ThreadPoolExecutor(max_workers=3)
+    fut_main = pool.submit(core.coq_mismatches, HEADER, 'c19case', 'c19_agree', [t[2] for t in terms], 'c19', max(12, (len(terms) + nsh - 1) // nsh))
+    # lines around the bufio.Scanner limit of NewIndex (64 KiB): index / reads when they fit, an error beyond
+    lcases = gen_long() if tier == 'thorough' else gen_long()[:6]
+    for lc in lcases:
+        L = lc['n']
+        w = L
+        lc['queries'] = [dict(name=lc['struct']['recs'][0]['name'], whole=False, s=s_, e=e_, sizes=sz) for s_, e_, sz in
+                         [(0, 3, [2, 2]), (L - 3, L, [5, 1]), (L - 1, L, [1, 1]), (L, L, [1])]]
+        if len(lc['struct']['recs']) > 1:
+            lc['queries'].append(dict(name=lc['struct']['recs'][1]['name'], whole=True, s=0, e=0, sizes=[3, 3]))
+    lobs = core.run_harness('c19', [dict(long=dict(pre=lc['pre'], n=lc['n'], post=lc['post']), queries=lc['queries']) for lc in lcases])
+    lterms = []
+    for lc, o in zip(lcases, lobs):
+        res.evaluations += 1 + len(lc['queries'])
+        fits = lines_fit(lc['file'])
+        res.count('long-line/%s/%s/%s' % ('crlf' if lc['struct']['recs'][0]['crlf'] else 'lf', lc['tail'], 'fits' if fits else 'too-long'))
+        res.nontrivial.add(('long', lc['n'], lc['tail'], lc['struct']['recs'][0]['crlf']))
+        desc = dict(long_line=dict(pre=bytes(lc['pre']).decode('latin1'), n=lc['n'], post=bytes(lc['post']).decode('latin1')))
+        if 'idx' not in o:
+            res.failures.append(dict(sig='long-line:' + ('hang' if 'hang' in o else 'panic'), what='NewIndex on a line of %d bases did not return normally' % lc['n'], case=desc, observed=strip(o)))
+            continue
+        if fits:
+            c = dict(kind='wf', family='long', struct=lc['struct'], file=lc['file'], queries=lc['queries'])
+            for sig, what, exp in oracle(c, o):
+                res.failures.append(dict(sig='long-line:' + sig, what=what[:600], case=desc, observed=dict(idx=strip(o)['idx']), expected=None))
+        elif o['idx']['err'] == 0:
+            res.failures.append(dict(sig='long-line:accepted', what='a line of %d bytes is beyond the Scanner limit but NewIndex returned an index without error' % (lc['n'] + 1),
+                                     case=desc, observed=dict(idx=strip(o)['idx'])))
+        lterms.append((lc, o, 'mkLong %s %s %s %s' % (clist(lc['pre']), cz(lc['n']), clist(lc['post']), cidx(o['idx']))))
+    fut_long = pool.submit(core.coq_mismatches, HEADER, 'c19long', 'c19_long_agree', [x[2] for x in lterms], 'c19l', 3)
+    ncoq += len(lterms)
     # ReadFrom on free TSV text: correspondence only
     ntsv = 80 if tier == 'quick' else 2000
     tcases = [gen_tsv(rng) for _ in range(ntsv)]
@@ -613,7 +676,22 @@ def run(res, rng, tier):
         tterms.append((t, o, 'mkTsv %s %s' % (clist(t), cidx(o['rt']))))
     ncoq += len(tterms)
     res.extra['traces_validated_against_impl'] = ncoq
-    bad, err = core.coq_mismatches(HEADER, 'c19tsv', 'c19_tsv_agree', [x[2] for x in tterms], 'c19t', shard=500)
+    fut_tsv = pool.submit(core.coq_mismatches, HEADER, 'c19tsv', 'c19_tsv_agree', [x[2] for x in tterms], 'c19t', 500)
+    bad, err = fut_main.result()
+    if err:
+        res.corr_bad.append(dict(error=err))
+    for i in bad:
+        c, o, t = terms[i]
+        res.corr_bad.append(dict(case=dict(file=c['file'], text=bytes(c['file']).decode('latin1'), queries=c['queries']), obs=strip(o),
+                                 note='Coq model of NewIndex/WriteTo/ReadFrom/Seq.Read (or the rendered structure) disagrees with the implementation'))
+    bad, err = fut_long.result()
+    if err:
+        res.corr_bad.append(dict(error=err))
+    for i in bad:
+        lc, o, t = lterms[i]
+        res.corr_bad.append(dict(case=dict(long_line=dict(pre=bytes(lc['pre']).decode('latin1'), n=lc['n'], post=bytes(lc['post']).decode('latin1'))), obs=dict(idx=strip(o)['idx']),
+                                 note='Coq model of NewIndex (Scanner limit) disagrees with the implementation'))
+    bad, err = fut_tsv.result()
     if err:
         res.corr_bad.append(dict(error=err))
     for i in bad:
@@ -659,8 +737,8 @@ TRUSTED = [
 ]
 ASSUME = [
     'bytes.TrimSpace is modelled on ASCII input (bytes < 128); files with multi-byte UTF-8 white space are outside the model',
-    'the bufio.Scanner with the custom split function is the line tokeniser `lines`; lines shorter than bufio.MaxScanTokenSize (64 KiB)',
-    'encoding/csv is modelled as a plain LF/TAB split: names without double quote, TAB, CR, LF',
+    'the bufio.Scanner with the custom split function is the line tokeniser `lines` with the limit of bufio.MaxScanTokenSize bytes per token (modelled: scan_tokens; an input reader that reports io.EOF on a separate call, as bytes.Reader and os.File do)',
+    'ReadFrom splits lines at LF (CR before it dropped) and fields at TAB, without quoting rules (as the code does since the repair of C19-quote-in-name)',
     'the io.ReaderAt under File delivers exactly the file bytes (bytes.Reader semantics)',
     'Go int/int64 arithmetic does not overflow (offsets < 2^63)',
 ]
@@ -670,7 +748,7 @@ CLAIM = dict(
          'structure (any number of records, any widths, LF/CRLF, descriptions, blank lines, with/without final newline) the index of the rendered bytes is the true faidx entry of every record, '
          'every range read with any buffer-size script returns exactly the requested bases and io.EOF as an ideal reader would, and the TSV form round-trips. '
          'position/endOfLineOffset and the blank-line arm are regenerated from the Go source; the model is run against the implementation on every check.',
-    note='Trusted: Coq kernel; hand model (validated by correspondence on every run); ASCII TrimSpace; csv as plain TSV split (names without quote/TAB/CR/LF); '
+    note='Trusted: Coq kernel; hand model (validated by correspondence on every run); ASCII TrimSpace; lines within the bufio.Scanner limit (beyond it: proved to be an error); '
          'exact ReaderAt; no integer overflow. No axioms.',
     technique='Coq proof over executable model + source-regenerated arithmetic + vm_compute correspondence + naive FASTA slicer oracle',
     design='6/C19')
